@@ -465,6 +465,26 @@ pub fn e3_error_paths(rep: &mut Report) {
             Err(e) => rep.machinery(format!("TLC: {e}")),
         }
     }
+    // pilot (one job per combination and mode): when the binary hangs or follows no schedule, skip the rest
+    {
+        let mut seen = std::collections::BTreeSet::new();
+        let pilot: Vec<&Job> = jobs.iter().filter(|j| seen.insert((j.n, j.errs, j.multi))).collect();
+        let pres = par_map(&pilot, report::threads(), |j| e3::replay(&j.files, &j.schedule, j.lang, j.multi, j.n, &[]));
+        let hangs = pres.iter().filter(|r| r.class == "hang").count();
+        let infeasible = pres.iter().filter(|r| r.class == "schedule-infeasible").count();
+        if hangs > 0 || infeasible * 2 > pilot.len() {
+            if let Some((j, r)) = pilot.iter().zip(pres.iter()).find(|(_, r)| r.class == "hang") {
+                rep.vios.add(Violation {
+                    sig: format!("C07|schedule|hang|files={}|errs={}|mode={}|pilot", j.n, j.errs, if j.multi { "multi" } else { "single" }),
+                    detail: json!({"schedule": r.schedule, "argv": r.argv, "stderr": r.stderr, "note": "pilot run; the remaining replays were skipped"}),
+                });
+            } else {
+                rep.machinery(format!("pilot: {infeasible} of {} pilot schedules could not be followed by the binary; the remaining {} replays were skipped", pilot.len(), jobs.len()));
+            }
+            rep.cov("error_path_schedules", json!({"pilot_jobs": pilot.len(), "hangs": hangs, "schedules_not_followed": infeasible, "remaining_jobs_skipped": jobs.len()}));
+            return;
+        }
+    }
     let results = par_map(&jobs, report::threads(), |j| e3::replay(&j.files, &j.schedule, j.lang, j.multi, j.n, &[]));
     let mut conform = 0u64;
     let mut classes: std::collections::BTreeMap<String, u64> = Default::default();
